@@ -13,7 +13,8 @@
 (***************************************************************************)
 EXTENDS KgEval, TLC, Json
 
-CONSTANTS MaxLen, RecordHist
+CONSTANTS MaxLen, RecordHist,
+          Only           \* a set of statement indices to which the histories are restricted ({} = all statements)
 
 Ints(q) == L([k \in 1..Len(q) |-> I(q[k])])
 Lit(v) == [k |-> "lit", v |-> v]
@@ -43,6 +44,9 @@ EvalX(e, env) ==
   ELSE Eval(e, env)
 
 MixM == L(<<L(<<S(<<112>>), I(1)>>), L(<<S(<<114>>), I(2)>>)>>)       \* [["p" 1] ["r" 2]]
+\* a string of 36 characters (longer than any threshold at which an implementation might start to share or memoise character data)
+LongS == S(<<97, 98, 99, 100, 101, 102, 103, 104, 105, 106, 107, 108, 109, 110, 111, 112, 113, 114, 115, 116, 117, 118, 119, 120, 121, 122,
+            48, 49, 50, 51, 52, 53, 54, 55, 56, 57>>)
 Rank3 == L(<<L(<<Ints(<<1, 2>>), Ints(<<3, 4>>)>>), L(<<Ints(<<5, 6>>), Ints(<<7, 8>>)>>)>>)       \* [[[1 2] [3 4]] [[5 6] [7 8]]]
 Stmts == <<
   Asg("a", Lit(Ints(<<1, 2, 3>>))), Asg("a", Lit(Ints(<<4, 5, 6, 7>>))), Asg("b", Var("a")),
@@ -68,7 +72,12 @@ Stmts == <<
   [k |-> "modin"], [k |-> "modout"], Asg("a", Dy("+", Var("a"), Lit(I(1)))), Ex(Var("a")),
   \* a statement that FAILS inside a user function with a declared local named like a global (e1::{[a];a::[10 20 30];a@x} in the
   \* prelude, index out of range): the error reaches the top level and the variable state is what it was
-  [k |-> "fail", src |-> "e1(9)"], [k |-> "fail", src |-> "b::e1(7)"]
+  [k |-> "fail", src |-> "e1(9)"], [k |-> "fail", src |-> "b::e1(7)"],
+  \* a long string held by two variables (once by assignment of the variable, once from the same literal), amended with a
+  \* character, indexed, taken from and reversed
+  Asg("a", Lit(LongS)), Asg("d", Lit(LongS)), Asg("c", Dy(":=", Var("a"), Lit(L(<<C(81), I(4)>>)))),
+  Asg("e", Dy("@", Var("a"), Lit(I(4)))), Asg("e", Dy("#", Lit(I(9)), Var("d"))), Asg("e", Dy("@", Var("d"), Lit(Ints(<<4, 10>>)))),
+  Asg("b", Dy(":=", Var("d"), Lit(L(<<C(90), I(10)>>))))
 >>
 
 \* Variable state = three scopes: the globals defined before the module (env), the module's own names (menv, written
@@ -107,7 +116,7 @@ Exec(i) ==
                                                post |-> Snap(g2, m2, p2, h2)])
                 ELSE hist
 
-Next == \E i \in 1..Len(Stmts) : Exec(i)
+Next == \E i \in (IF Only = {} THEN 1..Len(Stmts) ELSE Only) : Exec(i)
 
 \* the frame condition, as an action property: a statement changes at most the one variable it assigns, in one scope
 Changed(q) == (IF Same(env'[q], env[q]) THEN 0 ELSE 1) + (IF Same(menv'[q], menv[q]) THEN 0 ELSE 1) + (IF Same(penv'[q], penv[q]) THEN 0 ELSE 1)
